@@ -30,170 +30,257 @@ def make_module(tools, opt, modname):
 
 
 # ------------------------------------------------------------------------------------------ operation sequences
-class Gen:
-    """generates activations that respect the Rust ownership discipline and the CM host protocol (what the model calls
-    non-EApi), tracking just enough state: live user wrappers, their slots, boxes held outside"""
+# A sequence is SYMBOLIC: Rust values are named (r<n> = wrapper of the imported resource, x<n> = wrapper of the exported
+# resource, b<n> = a box of the exported resource); `concretize` assigns model wrapper ids / guest slots / box numbers by
+# replaying creation order and silently drops operations whose operands no longer exist — so any sub-list of a valid
+# sequence is again a valid sequence (that is what makes shrinking possible).
+#
+# activation = {"kind": …, …}; user operations inside a script activation = (op, operands…)
+USER_OPS = ("make", "ctor", "newx", "drop_r", "consume", "peek", "method", "many", "peekopt", "getx", "into", "drop_x")
 
+
+class SymGen:
     def __init__(self, rng):
         self.r = rng
-        self.nextw = 0
-        self.rs = []      # slot -> wid or None (moved)
-        self.xs = []
-        self.hostown = []  # box numbers whose own handle is outside
-        self.nbox = 0
-        self.acts = []
+        self.n = 0
+        self.live_r, self.live_x, self.host_b = [], [], []   # names
+        self.box_of = {}                                     # x-name -> b-name
 
-    def live_r(self):
-        return [i for i, w in enumerate(self.rs) if w is not None]
+    def fresh(self, p):
+        self.n += 1
+        return "%s%d" % (p, self.n)
 
-    def live_x(self):
-        return [i for i, w in enumerate(self.xs) if w is not None]
-
-    def new_w(self):
-        self.nextw += 1
-        return self.nextw - 1
-
-    def user_ops(self, n):
-        """-> (model ops, script words)"""
+    def user_op(self):
         r = self.r
-        mops, words = [], []
-        for _ in range(n):
-            ch = [("make", 3), ("ctor", 2), ("newx", 3)]
-            if self.live_r():
-                ch += [("drop_r", 3), ("consume", 3), ("peek", 3), ("method", 2), ("many", 1), ("peekopt", 1)]
-            if self.live_x():
-                ch += [("getx", 3), ("into", 2), ("drop_x", 2)]
-            k = r.weighted(ch)
-            if k in ("make", "ctor"):
-                v = r.range(1, 4000)
-                w = self.new_w()
-                self.rs.append(w)
-                mops.append("gi:%d" % v)
-                words += [4 if k == "make" else 5, v]
-            elif k == "newx":
-                v = r.range(1, 100000)
-                w = self.new_w()
-                self.xs.append((w, self.nbox))
-                self.nbox += 1
-                mops.append("un:%d" % v)
-                words += [10, v]
-            elif k in ("drop_r", "consume"):
-                s = r.choice(self.live_r())
-                mops.append(("ud:%d" if k == "drop_r" else "po:%d") % self.rs[s])
-                self.rs[s] = None
-                words += [1 if k == "drop_r" else 2, s]
-            elif k in ("peek", "method"):
-                s = r.choice(self.live_r())
-                mops.append("pb:%d" % self.rs[s])
-                words += [3 if k == "peek" else 6, s]
-            elif k == "many":
-                live = self.live_r()
-                n_ = r.range(0, min(3, len(live)))
-                pick = []
-                for _ in range(n_):
-                    s = r.choice([x for x in live if x not in pick])
-                    pick.append(s)
-                words += [7, len(pick)] + pick
-                for s in pick:
-                    mops.append("po:%d" % self.rs[s])
-                    self.rs[s] = None
-            elif k == "peekopt":
-                live = self.live_r()
-                b = r.choice(live)
-                if r.chance(1, 3):
-                    words += [8, 0xFFFFFFFF, b]
-                    mops.append("pb:%d" % self.rs[b])
-                else:
-                    a = r.choice(live)
-                    words += [8, a, b]
-                    mops += ["pb:%d" % self.rs[a], "pb:%d" % self.rs[b]]
-            elif k == "getx":
-                s = r.choice(self.live_x())
-                mops.append("ug:%d" % self.xs[s][0])
-                words += [11, s]
-            elif k in ("into", "drop_x"):
-                s = r.choice(self.live_x())
-                mops.append(("ui:%d" if k == "into" else "ud:%d") % self.xs[s][0])
-                self.xs[s] = None
-                words += [12 if k == "into" else 13, s]
-        return mops, words
+        ch = [("make", 3), ("ctor", 2), ("newx", 3)]
+        if self.live_r:
+            ch += [("drop_r", 3), ("consume", 3), ("peek", 3), ("method", 2), ("many", 1), ("peekopt", 1)]
+        if self.live_x:
+            ch += [("getx", 3), ("into", 2), ("drop_x", 2)]
+        k = r.weighted(ch)
+        if k in ("make", "ctor"):
+            n = self.fresh("r")
+            self.live_r.append(n)
+            return (k, n, r.range(1, 4000))
+        if k == "newx":
+            n, b = self.fresh("x"), self.fresh("b")
+            self.live_x.append(n)
+            self.box_of[n] = b
+            return (k, n, b, r.range(1, 100000))
+        if k in ("drop_r", "consume"):
+            n = r.choice(self.live_r)
+            self.live_r.remove(n)
+            return (k, n)
+        if k in ("peek", "method"):
+            return (k, r.choice(self.live_r))
+        if k == "many":
+            pick = []
+            for _ in range(r.range(0, min(3, len(self.live_r)))):
+                pick.append(r.choice([x for x in self.live_r if x not in pick]))
+            for n in pick:
+                self.live_r.remove(n)
+            return (k,) + tuple(pick)
+        if k == "peekopt":
+            b = r.choice(self.live_r)
+            a = None if r.chance(1, 3) else r.choice(self.live_r)
+            return (k, a, b)
+        if k == "getx":
+            return (k, r.choice(self.live_x))
+        n = r.choice(self.live_x)        # into / drop_x
+        self.live_x.remove(n)
+        return (k, n)
 
     def activation(self):
         r = self.r
         ch = [("script", 6), ("take", 3), ("look", 3), ("mk", 3), ("ctorx", 1)]
-        if self.live_r():
+        if self.live_r:
             ch += [("give", 2), ("givesome", 1)]
-        if self.live_x():
+        if self.live_x:
             ch += [("givex", 2)]
-        if self.hostown:
+        if self.host_b:
             ch += [("takex", 3), ("lookx", 3), ("methodget", 1), ("hostdrop", 2)]
-        if len(self.hostown) >= 2:
+        if len(self.host_b) >= 2:
             ch += [("merge", 1)]
         k = r.weighted(ch)
-        a = {"kind": k}
         if k == "script":
-            m, w = self.user_ops(r.range(1, 6))
-            a.update(model=["eb"] + m + ["ee"], script=w)
-        elif k == "take":
-            rep = r.range(1, 4000)
-            self.rs.append(self.new_w())
-            a.update(model=["eb", "gi:%d" % rep, "ee"], rep=rep)
-        elif k == "look":
-            rep = r.range(1, 4000)
-            w = self.new_w()
-            pass_on = r.chance(1, 2)
-            a.update(model=["eb", "lb:%d" % rep] + (["pb:%d" % w] if pass_on else []) + ["ee"], rep=rep, pass_on=pass_on)
-        elif k == "give":
-            s = r.choice(self.live_r())
-            a.update(model=["eb", "po:%d" % self.rs[s], "ee"], slot=s)
-            self.rs[s] = None
-        elif k == "givesome":
-            live = self.live_r()
+            return {"kind": k, "ops": [self.user_op() for _ in range(r.range(1, 6))]}
+        if k == "take":
+            n = self.fresh("r")
+            self.live_r.append(n)
+            return {"kind": k, "new": n, "rep": r.range(1, 4000)}
+        if k == "look":
+            return {"kind": k, "rep": r.range(1, 4000), "pass_on": r.chance(1, 2)}
+        if k == "give":
+            n = r.choice(self.live_r)
+            self.live_r.remove(n)
+            return {"kind": k, "w": n}
+        if k == "givesome":
             pick = []
-            for _ in range(r.range(0, min(3, len(live)))):
-                pick.append(r.choice([x for x in live if x not in pick]))
-            a.update(model=["eb"] + ["po:%d" % self.rs[s] for s in pick] + ["ee"], slots=pick)
-            for s in pick:
-                self.rs[s] = None
+            for _ in range(r.range(0, min(3, len(self.live_r)))):
+                pick.append(r.choice([x for x in self.live_r if x not in pick]))
+            for n in pick:
+                self.live_r.remove(n)
+            return {"kind": k, "ws": pick}
+        if k in ("mk", "ctorx"):
+            b = self.fresh("b")
+            self.host_b.append(b)
+            return {"kind": k, "box": b, "v": r.range(1, 100000)}
+        if k == "takex":
+            b = r.choice(self.host_b)
+            self.host_b.remove(b)
+            n = self.fresh("x")
+            self.live_x.append(n)
+            self.box_of[n] = b
+            return {"kind": k, "box": b, "new": n}
+        if k in ("lookx", "methodget"):
+            return {"kind": k, "box": r.choice(self.host_b)}
+        if k == "givex":
+            n = r.choice(self.live_x)
+            self.live_x.remove(n)
+            self.host_b.append(self.box_of[n])
+            return {"kind": k, "w": n}
+        if k == "merge":
+            b1 = r.choice(self.host_b)
+            b2 = r.choice([b for b in self.host_b if b != b1])
+            return {"kind": k, "box": b1, "box2": b2}
+        b = r.choice(self.host_b)
+        self.host_b.remove(b)
+        return {"kind": "hostdrop", "box": b}
+
+
+def gen_symbolic(rng, n):
+    g = SymGen(rng)
+    return [g.activation() for _ in range(n)]
+
+
+def concretize(seq):
+    """symbolic sequence -> list of concrete activations: {"kind", "model": [ops], native parameters…}; operations and
+    activations whose operands do not exist (any more) are dropped"""
+    nextw = [0]
+    rslot, xslot = {}, {}       # name -> (wid, slot) for live wrappers
+    nr = nx = 0
+    boxnum = {}                 # b-name -> k
+    xbox = {}                   # x-name -> b-name
+    host = set()                # b-names held outside
+    nbox = [0]
+    out = []
+
+    def new_w():
+        nextw[0] += 1
+        return nextw[0] - 1
+    for a in seq:
+        k = a["kind"]
+        c = {"kind": k}
+        if k == "script":
+            mops, words = [], []
+            for op in a["ops"]:
+                o = op[0]
+                if o in ("make", "ctor"):
+                    rslot[op[1]] = (new_w(), nr)
+                    nr += 1
+                    mops.append("gi:%d" % op[2])
+                    words += [4 if o == "make" else 5, op[2]]
+                elif o == "newx":
+                    xslot[op[1]] = (new_w(), nx)
+                    nx += 1
+                    boxnum[op[2]] = nbox[0]
+                    nbox[0] += 1
+                    xbox[op[1]] = op[2]
+                    mops.append("un:%d" % op[3])
+                    words += [10, op[3]]
+                elif o in ("drop_r", "consume"):
+                    if op[1] not in rslot:
+                        continue
+                    w, sl = rslot.pop(op[1])
+                    mops.append(("ud:%d" if o == "drop_r" else "po:%d") % w)
+                    words += [1 if o == "drop_r" else 2, sl]
+                elif o in ("peek", "method"):
+                    if op[1] not in rslot:
+                        continue
+                    w, sl = rslot[op[1]]
+                    mops.append("pb:%d" % w)
+                    words += [3 if o == "peek" else 6, sl]
+                elif o == "many":
+                    pick = [n for n in op[1:] if n in rslot]
+                    words += [7, len(pick)] + [rslot[n][1] for n in pick]
+                    for n in pick:
+                        mops.append("po:%d" % rslot.pop(n)[0])
+                elif o == "peekopt":
+                    if op[2] not in rslot:
+                        continue
+                    if op[1] is None or op[1] not in rslot:
+                        words += [8, 0xFFFFFFFF, rslot[op[2]][1]]
+                        mops.append("pb:%d" % rslot[op[2]][0])
+                    else:
+                        words += [8, rslot[op[1]][1], rslot[op[2]][1]]
+                        mops += ["pb:%d" % rslot[op[1]][0], "pb:%d" % rslot[op[2]][0]]
+                elif o == "getx":
+                    if op[1] not in xslot:
+                        continue
+                    mops.append("ug:%d" % xslot[op[1]][0])
+                    words += [11, xslot[op[1]][1]]
+                elif o in ("into", "drop_x"):
+                    if op[1] not in xslot:
+                        continue
+                    w, sl = xslot.pop(op[1])
+                    mops.append(("ui:%d" if o == "into" else "ud:%d") % w)
+                    words += [12 if o == "into" else 13, sl]
+            if not mops:
+                continue
+            c.update(model=["eb"] + mops + ["ee"], script=words)
+        elif k == "take":
+            rslot[a["new"]] = (new_w(), nr)
+            nr += 1
+            c.update(model=["eb", "gi:%d" % a["rep"], "ee"], rep=a["rep"])
+        elif k == "look":
+            w = new_w()
+            c.update(model=["eb", "lb:%d" % a["rep"]] + (["pb:%d" % w] if a["pass_on"] else []) + ["ee"], rep=a["rep"], pass_on=a["pass_on"])
+        elif k == "give":
+            if a["w"] not in rslot:
+                continue
+            w, sl = rslot.pop(a["w"])
+            c.update(model=["eb", "po:%d" % w, "ee"], slot=sl)
+        elif k == "givesome":
+            pick = [n for n in a["ws"] if n in rslot]
+            c.update(model=["eb"] + ["po:%d" % rslot[n][0] for n in pick] + ["ee"], slots=[rslot[n][1] for n in pick])
+            for n in pick:
+                rslot.pop(n)
         elif k in ("mk", "ctorx"):
-            v = r.range(1, 100000)
-            w = self.new_w()
-            box = self.nbox
-            self.nbox += 1
-            self.hostown.append(box)
-            a.update(model=["eb", "un:%d" % v, "po:%d" % w, "ee"], v=v)
+            w = new_w()
+            boxnum[a["box"]] = nbox[0]
+            nbox[0] += 1
+            host.add(a["box"])
+            c.update(model=["eb", "un:%d" % a["v"], "po:%d" % w, "ee"], v=a["v"])
         elif k == "takex":
-            b = r.choice(self.hostown)
-            self.hostown.remove(b)
-            self.xs.append((self.new_w(), b))
-            a.update(model=["eb", "ge:%d" % b, "ee"], box=b)
+            if a["box"] not in host:
+                continue
+            host.discard(a["box"])
+            xslot[a["new"]] = (new_w(), nx)
+            nx += 1
+            xbox[a["new"]] = a["box"]
+            c.update(model=["eb", "ge:%d" % boxnum[a["box"]], "ee"], box=boxnum[a["box"]])
         elif k in ("lookx", "methodget"):
-            b = r.choice(self.hostown)
-            a.update(model=["eb", "bg:%d" % b, "ee"], box=b)
+            if a["box"] not in host:
+                continue
+            c.update(model=["eb", "bg:%d" % boxnum[a["box"]], "ee"], box=boxnum[a["box"]])
         elif k == "givex":
-            s = r.choice(self.live_x())
-            # which box does that wrapper hold? the host learns it from the transfer; we track it through the model output
-            a.update(model=["eb", "po:%d" % self.xs[s][0], "ee"], slot=s)
-            self.hostown.append(self.xs[s][1])
-            self.xs[s] = None
+            if a["w"] not in xslot:
+                continue
+            w, sl = xslot.pop(a["w"])
+            host.add(xbox[a["w"]])
+            c.update(model=["eb", "po:%d" % w, "ee"], slot=sl)
         elif k == "merge":
-            b1 = r.choice(self.hostown)
-            b2 = r.choice([b for b in self.hostown if b != b1])
-            self.hostown.remove(b1)
-            w = self.new_w()
-            a.update(model=["eb", "ge:%d" % b1, "bg:%d" % b2, "po:%d" % w, "ee"], box=b1, box2=b2)
-            self.hostown.append(b1)
+            if a["box"] not in host or a["box2"] not in host or a["box"] == a["box2"]:
+                continue
+            w = new_w()
+            c.update(model=["eb", "ge:%d" % boxnum[a["box"]], "bg:%d" % boxnum[a["box2"]], "po:%d" % w, "ee"], box=boxnum[a["box"]], box2=boxnum[a["box2"]])
         elif k == "hostdrop":
-            b = r.choice(self.hostown)
-            self.hostown.remove(b)
-            a.update(model=["hd:%d" % b], box=b)
-        self.acts.append(a)
-        return a
-
-
-def gen_sequence(rng, n):
-    g = Gen(rng)
-    return [g.activation() for _ in range(n)], g
+            if a["box"] not in host:
+                continue
+            host.discard(a["box"])
+            c.update(model=["hd:%d" % boxnum[a["box"]]], box=boxnum[a["box"]])
+        out.append(c)
+    return out
 
 
 # ------------------------------------------------------------------------------------------ the two runs
